@@ -4,4 +4,5 @@ INIT Init
 NEXT Next
 INVARIANT LawRebindExercised
 INVARIANT LawUseExercised
+INVARIANT LawShadowExercised
 CHECK_DEADLOCK FALSE
